@@ -1,7 +1,7 @@
 //! C06 — money literals, currency conversion and money arithmetic follow the rate table.
 
 use super::common::{exec_line, num, Expect, LineCase};
-use crate::explore::{Family, Mode, Verdict};
+use crate::explore::{Bfs, Family, Mode, Verdict};
 use crate::model::arith::guarded_div;
 use crate::obs::{self, Base, Run, Slot, Val};
 use crate::runner::{Cfg, Ctx, Prop, Tier};
@@ -23,6 +23,8 @@ pub enum Op {
 pub enum Case {
     Line(LineCase),
     History(Vec<Op>),
+    /// merged breadth-first layer: like History, and the verdict carries the state key
+    Reach(Vec<Op>),
 }
 
 fn rate(c: &str) -> f64 {
@@ -227,8 +229,35 @@ impl Prop for C06 {
     fn exec(&self, ctx: &mut Ctx, case: &Case) -> Verdict {
         match case {
             Case::Line(l) => exec_line(ctx, l),
-            Case::History(ops) => exec_history(ctx, ops),
+            Case::History(ops) => exec_history(ctx, ops, false),
+            Case::Reach(ops) => exec_history(ctx, ops, true),
         }
+    }
+
+    fn bfs_layers(&self, tier: Tier) -> Vec<Bfs<Case>> {
+        let names: Vec<&'static str> = tier.pick(vec!["usd", "TRY", "eur", "euro", "$", "aed", "xyz"], vec!["usd", "TRY", "eur", "euro", "$", "aed", "xyz", "GBP"]);
+        let rates: Vec<f64> = tier.pick(vec![2.0, 0.5], vec![2.0, 0.5, 3.0]);
+        let mut ops: Vec<Op> = Vec::new();
+        for n in names.iter() {
+            for r in rates.iter() {
+                ops.push(Op::Update(n.to_string(), *r));
+            }
+        }
+        let n = ops.len();
+        vec![Bfs::new(
+            "reachable-rate-tables",
+            &format!("explicit-state search over update_currency(name, rate) for names {:?} x rates {:?} from the fresh calculator; a state is the model's rate table (usd, try, eur, gbp, aed) together with the fingerprint of the probe matrix; every edge replays the shortest history to its source state on a fresh calculator, applies the update and compares the whole probe matrix (4x4 conversions, two sums, aed<->usd) with the model; no state constraint (the table space is finite)", names, rates),
+            n,
+            tier.pick(12, 24),
+            move |h| {
+                let mut seq = vec![Op::Probe];
+                for i in h {
+                    seq.push(ops[*i].clone());
+                    seq.push(Op::Probe);
+                }
+                Case::Reach(seq)
+            },
+        )]
     }
 
     fn rule(&self) -> String {
@@ -251,11 +280,12 @@ fn resolve(name: &str) -> Option<String> {
     None
 }
 
-fn exec_history(ctx: &mut Ctx, ops: &[Op]) -> Verdict {
+fn exec_history(ctx: &mut Ctx, ops: &[Op], want_key: bool) -> Verdict {
     let mut calc = ctx.fresh(&Cfg::default());
     let mut table: BTreeMap<String, f64> = spec().rates.clone();
     let mut v = Verdict { input: format!("{:?}", ops), class: "history-compared", compared: true, ..Default::default() };
     let mut trace = String::new();
+    let mut last_probe = String::new();
     for (step, op) in ops.iter().enumerate() {
         match op {
             Op::Update(name, r) => {
@@ -301,9 +331,11 @@ fn exec_history(ctx: &mut Ctx, ops: &[Op]) -> Verdict {
                         lines.push(("10 aed to usd".into(), None));
                     }
                 }
+                last_probe.clear();
                 for (text, want) in lines {
                     let run = obs::eval(&calc, "en", &text);
                     v.evals += 1;
+                    last_probe.push_str(&format!("{:?};", run));
                     let ok = match (&run, &want) {
                         (Run::Panic(p), _) => {
                             v.site = Some(p.site.clone());
@@ -324,5 +356,11 @@ fn exec_history(ctx: &mut Ctx, ops: &[Op]) -> Verdict {
         }
     }
     v.observed = trace;
+    if want_key {
+        let mut h = std::collections::hash_map::DefaultHasher::new();
+        std::hash::Hash::hash(&last_probe, &mut h);
+        let t: Vec<String> = ["usd", "try", "eur", "gbp", "aed"].iter().map(|c| format!("{}={:?}", c, table.get(*c))).collect();
+        v.key = Some(format!("{}|{:016x}", t.join(","), std::hash::Hasher::finish(&h)));
+    }
     v
 }
